@@ -8,7 +8,8 @@ def run(rep, tier, seed):
     rep.need_witness('c07_calls', 'c07_service_restarted', 'c07_all_ready_polls')
     q = tier == 'quick'
     runs = [('S1', dict(S=1, steps=4 if q else 6, env_per_step=2, max_conns=3 if q else 4, actions=('conn', 'finish'), checks=(chk_c07,))),
-            ('S2', dict(S=2, steps=3 if q else 4, env_per_step=2, max_conns=2 if q else 3, actions=('conn', 'finish'), checks=(chk_c07,)))]
+            ('S2', dict(S=2, steps=3 if q else 4, env_per_step=2, max_conns=2 if q else 3, actions=('conn', 'finish'), checks=(chk_c07,))),
+            ('S2-two-failures', dict(S=2, steps=3, env_per_step=1, max_conns=1, pend_budget=0, err_budget=2, restart_pend_budget=0, actions=('conn',), checks=(chk_c07,)))]
     if not q:
         runs.append(('S3', dict(S=3, steps=3, env_per_step=2, max_conns=2, pend_budget=1, actions=('conn', 'finish'), checks=(chk_c07,))))
     run_worker_property(rep, 'C07', runs, tier, seed, keep=('C07/', 'C01/worker'))
